@@ -31,6 +31,19 @@ pub fn kf_sig(prefix: &str, forms: &[Sx]) -> Option<String> {
 }
 
 pub fn check_forms(ctx: &Ctx, forms: &[Sx], features: &std::collections::BTreeSet<&'static str>) -> Outcome {
+    check_session(ctx, "C01", forms, features, &|st, features| {
+        st.closure_calls > 0 && special_form_count(features) >= 2
+    })
+}
+
+/// Shared by C01 and C05: reference differential in three VMs.
+pub fn check_session(
+    ctx: &Ctx,
+    id: &str,
+    forms: &[Sx],
+    features: &std::collections::BTreeSet<&'static str>,
+    nontrivial: &dyn Fn(&mwv_core::ri::RiStats, &std::collections::BTreeSet<&'static str>) -> bool,
+) -> Outcome {
     let ri = run_ri(forms, 200_000);
     let render = json!({"program": render_session(forms)});
     if ri.comparable == 0 {
@@ -51,7 +64,7 @@ pub fn check_forms(ctx: &Ctx, forms: &[Sx], features: &std::collections::BTreeSe
             Ok(n) => compared = n,
             Err(m) => {
                 let upto = &forms[..=m.form.min(forms.len() - 1)];
-                let sig = kf_sig("C01", upto).unwrap_or_else(|| format!("C01|{}", m.kind));
+                let sig = kf_sig(id, upto).unwrap_or_else(|| format!("{}|{}", id, m.kind));
                 failure = Some((
                     sig,
                     format!("{} VM, form #{} `{}`: {}", name, m.form, forms[m.form], m.detail),
@@ -68,12 +81,26 @@ pub fn check_forms(ctx: &Ctx, forms: &[Sx], features: &std::collections::BTreeSe
             ctx.class(&format!("feature:{}", f));
         }
         ctx.class_n("forms-compared", compared as u64);
-        let nontrivial = ri.stats.closure_calls > 0 && special_form_count(features) >= 2;
-        if nontrivial {
+        if nontrivial(&ri.stats, features) {
             ctx.nontrivial_str(&render_session(prefix));
         }
         if ri.stats.apply_calls > 0 && ri.stats.vararg_calls > 0 {
             ctx.class("variadic-procedure-through-apply");
+        }
+        if ri.stats.cont_captures > 0 {
+            ctx.class("ri:continuation-captured");
+        }
+        if ri.stats.cont_invocations > 0 {
+            ctx.class("ri:continuation-invoked");
+        }
+        if ri.stats.cont_reentries > 0 {
+            ctx.class("ri:continuation-re-entered");
+        }
+        if ri.stats.cont_cross_form > 0 {
+            ctx.class("ri:continuation-invoked-from-later-form");
+        }
+        if ri.stats.cont_reentries_pending_operands > 0 {
+            ctx.class("ri:re-entry-with-pending-operands");
         }
         ctx.sample(|| render.clone());
     }
